@@ -316,6 +316,7 @@ func checkC05(w *World, r *Report) {
 	r.rule("C05.env-lock", "every access to Env.data reachable by the reader holds that environment's lock (shared with C11.data): the lock-free *NT methods are only called with the lock held")
 	guardRule(w, r, e, "C05.env-lock", w.guardRows()[2])
 	r.floor("C05.env-lock", "accesses to Env.data and calls of lock-required methods", r.count("C05.env-lock"), 10)
+	typedNilResultRule(w, r, e, "C05.typed-nil")
 	a := newAudit(w, e, r, "C05.site")
 	a.cmp = true
 	a.exempt = exemptionsC05
